@@ -220,6 +220,9 @@ func runPipe(api string, g *pipeGroup, wd time.Duration) (o pipeObs) {
 			if r.err != nil && r.err.Error() == "no binding" {
 				r.err = nil // the scripted programs bind nothing: that is Bind's own verdict after a successful interpretation
 			}
+		case "UnmarshalFile/v":
+			// a target that cannot be bound (passed by value): whatever the call returns, the input is read to its end and closed
+			r.err = bcl.UnmarshalFile(f, struct{ X int }{}, opts...)
 		}
 	}()
 	select {
@@ -259,6 +262,8 @@ func judgePipe(g *pipeGroup, o pipeObs) (why, shape string) {
 		return fmt.Sprintf("%s: Close called %d times", o.API, o.Closes), fmt.Sprintf("close-count-%d", o.Closes)
 	case o.Leaked != "":
 		return o.API + ": a goroutine started by the call is still alive after quiescence", "goroutine-leak"
+	case o.API == "UnmarshalFile/v":
+		return "", "" // the error of the unusable target is all the caller can expect; the contract above is what counts
 	case !g.rets[o.Ret]:
 		return fmt.Sprintf("%s returned %s (%s); the model allows %s", o.API, o.Ret, o.Err, o.Allowed), "return-class:" + o.Ret
 	case o.RAfter > 3:
@@ -322,6 +327,9 @@ func replayPipe(args []string) int {
 		}
 		for rep := 0; rep < reps; rep++ {
 			api := []string{"ParseFile", "InterpretFile", "UnmarshalFile"}[rep%3]
+			if rep%6 == 5 {
+				api = "UnmarshalFile/v"
+			}
 			atomic.StoreInt32(&jitterOn, int32(rep%2))
 			atomic.StoreInt32(&useWrappedEOF, int32((rep/3)%2))
 			atomic.StoreInt32(&failInBlock, int32((rep/2)%2))
